@@ -3,7 +3,7 @@ import Mp4ff.Lemmas.C15
 /-!
 # C15 — parameter sets and slice headers parse to the values that were coded
 Property theorems about the bitstream-syntax DSL (`Model/BitSyn.lean`) and the AVC sequence parameter set written in
-it (`Model/AvcSps.lean`, the transcription of avc/sps.go with full VUI/HRD and scaling lists); proofs in
+it (`Model/AvcSps.lean`, the transcription of avc/sps.go with full VUI/HRD, scaling lists and the parser's count limits); proofs in
 `Mp4ff/Lemmas/C15*.lean` on top of the C13 writer/reader refinement.  The SPS model is tied to `avc.ParseSPSNALUnit`
 by the `avcsps` correspondence op on NAL units produced by the harness's independent serialiser.  PPS, slice headers
 and the HEVC syntaxes are decided by the direct oracle only (see DESIGN.md, "partial").
@@ -41,9 +41,15 @@ theorem dims_eq_std_partial (t : Trace) (hf : t.nat "frame_mbs_only_flag" ≤ 1)
     (hsep : t.get "separate_colour_plane_flag" = 1 → chromaFormat t ≠ 1 ∧ chromaFormat t ≠ 2) :
     dims t = stdDims t := AvcSps.dims_eq_std_partial t hf hsep
 
-/-- … and the unrestricted statement is false: the witness -/
+/-- … and the unrestricted statement is false: the witness (separate_colour_plane_flag = 1 with an inferred chroma
+    format 1 — a value assignment the syntax cannot produce) -/
+def dimsCounterexample : Trace :=
+  [("profile_idc", 66), ("separate_colour_plane_flag", 1), ("frame_mbs_only_flag", 1), ("frame_cropping_flag", 1),
+   ("pic_width_in_mbs_minus1", 9), ("pic_height_in_map_units_minus1", 9), ("frame_crop_right_offset", 1),
+   ("frame_crop_bottom_offset", 1)]
+
 theorem dims_counterexample :
     dimsCounterexample.nat "frame_mbs_only_flag" ≤ 1 ∧ dims dimsCounterexample = some (158, 158) ∧
-      stdDims dimsCounterexample = some (159, 159) := AvcSps.dims_counterexample
+      stdDims dimsCounterexample = some (159, 159) := by decide
 
 end Mp4ff.AvcSps.C15
